@@ -173,6 +173,12 @@ def observe(m, queries: bool = True) -> dict:
         return obs
     res = {}
     kinds = {}
+    # stoichiometries first: a query must not change what later queries answer
+    def _stoich():
+        df = m.get_stoichiometries()
+        return {str(v): {str(f): float(df.loc[v, f]) for f in df.columns if float(df.loc[v, f]) != 0.0} for v in df.index}
+
+    kinds["stoich"], res["stoich"] = _query(_stoich)
     kinds["args"], res["args"] = _query(lambda: {k: float(v) for k, v in m.get_args().to_dict().items()})
     kinds["rhs"], res["rhs"] = _query(lambda: [float(v) for v in m.get_right_hand_side().to_numpy()])
     kinds["init"], res["init"] = _query(lambda: {k: float(v) for k, v in m.get_initial_conditions().items()})
@@ -213,6 +219,12 @@ def cmp_obs(exp: dict, obs: dict, queries: bool) -> dict | None:
         e = list(eq["rhs"])
         if len(e) != len(q["rhs"]) or any(not close(a, b) for a, b in zip(e, q["rhs"])):
             return {"what": "query rhs", "expected": e, "observed": q["rhs"]}
+        e_st = {v: {f: x for f, x in fn_to_dict(row).items() if x != 0} for v, row in fn_to_dict(eq["stoich"]).items()}
+        e_st = {v: row for v, row in e_st.items() if row}
+        o_st = {v: row for v, row in q["stoich"].items() if row}
+        if set(e_st) != set(o_st) or any(set(e_st[v]) != set(o_st[v]) or any(not close(e_st[v][f], o_st[v][f]) for f in e_st[v])
+                                          for v in e_st):
+            return {"what": "query stoichiometries", "expected": e_st, "observed": o_st}
         if sorted(eq["static"]) != q["static"]:
             return {"what": "query derived parameter names", "expected": sorted(eq["static"]), "observed": q["static"]}
     return None
@@ -329,8 +341,11 @@ def _rand_st(rnd, m):
     ps = list(m.get_parameter_names())
     st = {}
     for v in rnd.sample(vs, min(len(vs), rnd.randint(0, 2))):
-        if ps and rnd.random() < 0.25:
+        r = rnd.random()
+        if ps and r < 0.2:
             st[v] = {"k": "calc", "fn": "id", "args": [rnd.choice(ps)]}
+        elif r < 0.35:
+            st[v] = {"k": "calc", "fn": rnd.choice(["neg", "inc", "dbl"]), "args": [rnd.choice(vs + ["time"])]}
         else:
             st[v] = {"k": "num", "v": rnd.choice([-2, -1, 1, 2])}
     return st
@@ -412,6 +427,7 @@ def _project_for_tlc(obs: dict) -> dict | None:
 
         try:
             out["q"] = {"kind": "ok", "args": ints(q["args"]), "init": ints(q["init"]), "parvals": ints(q["parvals"]),
+                        "stoich": {v: ints(row) for v, row in q["stoich"].items() if row},
                         "rhs": [ints({"x": v})["x"] for v in q["rhs"]], "static": q["static"]}
         except ValueError:
             return None
